@@ -49,6 +49,10 @@ func seqIndex(st Step, ln int) (int, string) {
 	}
 	n, numeric, canon := canonInt(st.K)
 	switch {
+	case !numeric && decimal(st.K) && st.K[0] == '-':
+		return 0, rNegative // a canonical decimal below the int range
+	case !numeric && decimal(st.K):
+		return 0, rOutOfRange // a canonical decimal no int can hold: beyond every length
 	case !numeric:
 		return 0, rNonNumeric
 	case !canon:
